@@ -16,7 +16,8 @@ MemOf(pairs) == [ad \in {pairs[k][1] : k \in 1..Len(pairs)} |->
                    LET k == CHOOSE j \in 1..Len(pairs) : pairs[j][1] = ad IN pairs[k][2]]
 FileIn == [c \in 1..9 |-> IF c = 1 THEN <<>> ELSE <<48 + (c - 2), 254>>]
 PreState(r) == [State0(MemOf(r.m)) EXCEPT !.pc = r.pre[1], !.a = r.pre[2], !.b = r.pre[3], !.o = r.pre[4]]
-InputOf(r)  == [FileIn EXCEPT ![1] = r.in]
+\* records of the system-call grid say whether the input files existed with content (fin = 1) or were empty / absent (fin = 0)
+InputOf(r)  == IF "fin" \in DOMAIN r /\ r.fin = 1 THEN [FileIn EXCEPT ![1] = r.in] ELSE [c \in 1..9 |-> IF c = 1 THEN r.in ELSE <<>>]
 
 \* "ok" | "undef" | "refused" | a description of the mismatch
 Judge(r) ==
